@@ -132,6 +132,9 @@ FIELD_VALUES = {
     "kid.len_key_info": (0, 1, 2, -1, +1, 0xFFFFFFFF, 0x7FFFFFFF),
     "kid.len_domain": (0, 1, 2, 3, -1, +1, 0xFFFFFFFF),
     "kid.len_forest": (0, 1, 2, 3, -1, +1, 0xFFFFFFFF),
+    # public-key mode only: fields of the FFC DH key / ECDH key structure inside key_info
+    "ki.key_length": (0, 1, 2, 3, 8, 31, 33, 47, 49, 255, 257, -1, +1, 0x10000, 0x7FFFFFFF, 0xFFFFFFFF),
+    "ki.magic": (0, 0x4D504844, 0x42504844, 0x314B4345, 0x334B4345, 0x354B4345, 0x324B4345),
 }
 
 
@@ -174,10 +177,12 @@ class C05(common.Check):
         # field boundary values on every base blob
         for bi, b in enumerate(cat):
             for name, vals in FIELD_VALUES.items():
+                if name not in b.offsets:
+                    continue
                 s, e = b.offsets[name]
                 cur = int.from_bytes(b.blob[s:e], "little")
                 for v in vals:
-                    if name.startswith("kid.len") and v in (-1, 1):
+                    if (name.startswith("kid.len") or name == "ki.key_length") and v in (-1, 1):
                         v = cur + v
                     out.append([bi, 1, ["field", name, struct.pack("<I", v & 0xFFFFFFFF).hex()]])
                     if tier == "thorough" or bi % 4 == 0:
